@@ -4721,3 +4721,101 @@ func c14EverySendIsCharged(c *Ctx) {
 	}
 	c.Floor(R, "send sites in methods of Conn", n, 5)
 }
+
+// C13.12: an Initial packet built from the spec travels alone. appendInitialPacket re-frames the payload, pads it
+// to the spec's sizes and zero-pads the datagram behind the packet — after the coalescing sizes were computed. In
+// uPacketPacker.PackCoalescedPacket therefore (a) nothing is appended to the buffer after appendInitialPacket, and
+// (b) no Handshake / 0-RTT / 1-RTT payload is taken out of the queues on a path that goes on to appendInitialPacket
+// (it would be dropped, or — before the repair — written behind the padding, overrunning the packet buffer).
+func c13SpecInitialTravelsAlone(c *Ctx) {
+	const R = "C13.12"
+	f := c.fn("", "uPacketPacker", "PackCoalescedPacket")
+	aip := c.obj("", "uPacketPacker", "appendInitialPacket")
+	alh := c.obj("", "packetPacker", "appendLongHeaderPacket")
+	ash := c.obj("", "packetPacker", "appendShortHeaderPacket")
+	mgc := c.obj("", "packetPacker", "maybeGetCryptoPacket")
+	mgs := c.obj("", "packetPacker", "maybeGetShortHeaderPacket")
+	mga := c.obj("", "packetPacker", "maybeGetAppDataPacketFor0RTT")
+	hs := c.konst("internal/protocol", "EncryptionHandshake")
+	c.Floor(R, "calls of appendInitialPacket in uPacketPacker.PackCoalescedPacket", countInstr(f, CallsTo(aip)), 1)
+	later := OrIP(CallsTo(alh), CallsTo(ash))
+	c.Floor(R, "other packets appended in uPacketPacker.PackCoalescedPacket", countInstr(f, later), 3)
+	c.cut(R, "alone:nothing is appended behind a spec-built Initial packet", &Cut{Fn: f, Start: CallsTo(aip), Target: later, NoInline: true},
+		"the datagram was zero-padded to UDPDatagramMinSize behind the Initial packet: a packet appended there is unreachable for the peer and can overrun the packet buffer (panic in the run loop)")
+	pops := func(in ssa.Instruction) bool {
+		if CallsTo(mgs)(in) || CallsTo(mga)(in) {
+			return true
+		}
+		if !CallsTo(mgc)(in) {
+			return false
+		}
+		// (recv, maxPacketSize, encLevel, …)
+		as := in.(ssa.CallInstruction).Common().Args
+		return len(as) > 2 && types.Identical(as[2].Type(), hs.Type()) && ConstOf(hs)(as[2])
+	}
+	c.Floor(R, "payloads of other encryption levels taken in uPacketPacker.PackCoalescedPacket", countInstr(f, pops), 3)
+	c.cut(R, "alone:no other payload is taken when the Initial packet is built from the spec", &Cut{Fn: f, Start: pops, Target: CallsTo(aip), NoInline: true, TrackFlags: true},
+		"frames popped for a packet that is then not (or not validly) written are lost to retransmission bookkeeping")
+}
+
+// C09.17: lost ClientHello ranges that are not adjacent are retransmitted as they are. MarshalInitialPacketPayload
+// re-frames through the spec's builder only what reassembles into one contiguous slice; on the failure edge of
+// ReassembleCRYPTOFrames it must still serialise the frames (Frame.Append) instead of returning the error, which
+// would tear the connection down with the lost ranges never resent.
+func c09NonContiguousRetransmission(c *Ctx) {
+	const R = "C09.17"
+	f := c.fn("", "uPacketPacker", "MarshalInitialPacketPayload")
+	var reasm *ssa.Call
+	eachInstr(f, func(in ssa.Instruction) {
+		if cl, ok := in.(*ssa.Call); ok && cl.Call.StaticCallee() != nil && cl.Call.StaticCallee().Name() == "ReassembleCRYPTOFrames" {
+			reasm = cl
+		}
+	})
+	if !c.Check(reasm != nil, R, "anchor:MarshalInitialPacketPayload reassembles the packet's CRYPTO frames", "-", "call of clienthellod.ReassembleCRYPTOFrames") {
+		return
+	}
+	// the failure edge: err != nil on the call's second result
+	var starts []*ssa.BasicBlock
+	for _, b := range f.Blocks {
+		ifi, ok := b.Instrs[len(b.Instrs)-1].(*ssa.If)
+		if !ok {
+			continue
+		}
+		isErr := func(v ssa.Value) bool {
+			ex, ok := v.(*ssa.Extract)
+			return ok && ex.Tuple == ssa.Value(reasm) && ex.Index == 1
+		}
+		for s := 0; s < 2; s++ {
+			if EdgeImplies(ifi, s, Rel{Op: token.NEQ, X: isErr, Y: IsNil()}, false) {
+				starts = append(starts, b.Succs[s])
+			}
+		}
+	}
+	c.Floor(R, "failure edges of ReassembleCRYPTOFrames", len(starts), 1)
+	if len(starts) == 0 {
+		return
+	}
+	serialises := func(in ssa.Instruction) bool {
+		cl, ok := in.(ssa.CallInstruction)
+		if !ok {
+			return false
+		}
+		cc := cl.Common()
+		if cc.IsInvoke() && cc.Method.Name() == "Append" {
+			return true
+		}
+		// or a helper of this package whose body does (appendFramesVerbatim)
+		if sc := cc.StaticCallee(); sc != nil && sc.Pkg == f.Pkg && sc.Signature.Recv() == nil && len(sc.Blocks) > 0 {
+			found := false
+			eachInstr(sc, func(x ssa.Instruction) {
+				if y, ok := x.(ssa.CallInstruction); ok && y.Common().IsInvoke() && y.Common().Method.Name() == "Append" {
+					found = true
+				}
+			})
+			return found
+		}
+		return false
+	}
+	c.cut(R, "verbatim:frames that do not reassemble are still serialised", &Cut{Fn: f, StartBlocks: starts, Target: isReturn, Barrier: serialises},
+		"two non-adjacent lost Initial datagrams put two separate CRYPTO ranges into one retransmission packet; refusing it ends the connection and the ClientHello is never completed")
+}
